@@ -10,7 +10,8 @@ ROOT = os.path.abspath(os.path.join(HERE, '..'))
 # pointer checks are off: every pointer in a unit is either a C++ reference (never null by
 # construction of the emitted code) or internal to the shim; the memory-safety obligations of the
 # real code are the STL-PRE assertions of the shim (DESIGN §9 C17).
-CBMC_CHECKS = ['--bounds-check', '--signed-overflow-check', '--conversion-check',
+# conversion checks are off: integer conversions are defined (modular / implementation-defined), not UB
+CBMC_CHECKS = ['--bounds-check', '--signed-overflow-check',
                '--div-by-zero-check', '--no-standard-checks']
 
 
